@@ -314,10 +314,22 @@ def r3_typestate(P, rep, ctx):
     subs = files_subscripts(fi.node)
     rep.check(bool(subs) and all(k == "newest" for _, _, k in subs), "C02.R3", fi.qual, "_has_writable inspects element -1 only", fi.loc(),
               construct="index used by _has_writable", message=f"_has_writable inspects container indices {[k for _, _, k in subs]} (must be the newest only)")
-    cmp_ok = any(
-        isinstance(x, ast.Compare) and len(x.ops) == 1 and isinstance(x.ops[0], ast.Eq) and isinstance(x.comparators[0], ast.Constant) and x.comparators[0].value == "r+" and norm(x.left).endswith(".mode")
-        for x in ast.walk(fi.node)
-    )
+    # on every path the answer can only be true when the newest handle's mode compared equal to 'r+'
+    hw = F(ctx, fi)
+    try:
+        hpaths = hw.value_paths()
+    except ValueError as e:
+        raise AnalysisError(f"C02.R3: _has_writable: {e}")
+    cmp_ok = bool(hpaths)
+    for lits, v, n_ in hpaths:
+        if isinstance(v, ast.Constant) and not v.value:
+            continue
+        pos = {k for k, tv in lits if tv}
+        for c_ in M.conjuncts(v):
+            a_, neg = M.polarity(c_)
+            if not neg:
+                pos.add(norm(a_))
+        cmp_ok = cmp_ok and any(M.match("__f.mode == 'r+'", M.pat(k)) is not None or M.match("'r+' == __f.mode", M.pat(k)) is not None for k in pos)
     rep.check(cmp_ok, "C02.R3", fi.qual, "_has_writable is `mode == 'r+'`", fi.loc(), construct="mode comparison in _has_writable",
               message="_has_writable does not compare the newest container's mode with 'r+'")
     # the handle mode alone is not a sound typestate (HDF5 shares open flags between the handles of a process):
